@@ -176,6 +176,15 @@ def inject_all(base):
                 lf._mark = True
                 p.root.fields.insert(p.root.fields.index(first) + 1, lf)
                 out.append(Faulted('second-length', p, None, 'second @lengthOf in root (%s)' % ('prefixed' if prefixed else 'inline')))
+                # ... and a second length-of that names ANOTHER target (a new member of a new empty packet)
+                p = clone()
+                first = next(f for f in p.root.fields if f.kind == 'len')
+                p.packets.append(Packet('ExtraTgt', []))
+                at = len(p.root.fields) - (1 if p.root.fields[-1].kind == 'cksum' else 0)
+                lf = Field('len', 'ExtraLen', ntype='u16', target='Extra', prefixed=prefixed, typed=True)
+                lf._mark = True
+                p.root.fields[at:at] = [lf, Field('ref', 'Extra', packet='ExtraTgt', named=True)]
+                out.append(Faulted('second-length', p, None, 'second @lengthOf in root naming another target (%s)' % ('prefixed' if prefixed else 'inline')))
     # LEN outside root
     for pi, pk in enumerate(base.packets):
         if pk.root:
